@@ -9,3 +9,5 @@ for c in "$@"; do
   echo "[$(basename $S)] $c rc=$rc $(echo "$out" | grep -c '^VIOLATION') violation line(s): $(echo "$out" | grep '^VIOLATION' | head -2 | tr '\n' ' ')"
 done
 git -C /repo checkout -- .
+# the runs above rewrote evidence/ from a changed tree: restore the committed evidence (of the unchanged tree)
+git -C /verif checkout -- evidence
